@@ -940,3 +940,38 @@ Example c12_nonvacuous_file_closure :
   file_meaning noreturn_body one_server (0, KSym) = Some (2, ONotFound) /\
   file_meaning src_file_body one_server (0, KSym) = Some (2, OOk).
 Proof. exact noreturn_differs. Qed.
+
+(* adaptive requesters through ANY symbol entry point, and through the processor: when the lookups of the thread walks
+   are what the unwinder's decisions (functions of the answers it got) unfold to, the processor's run on the regenerated
+   program and walker has the adaptive run's shared state, whatever the schedule *)
+Theorem c12_adaptive_source_program_any_entry : forall (N : nat) (ac : aconfig) (fuel : nat) (pc : pconfig) (sched : list task),
+  N < fuel -> Forall (fun sg => ends N (outc (abase ac)) sg [] = true) (astrats ac) ->
+  sym_only pc -> cfg pc = fixed_config N ac ->
+  sh_eq true (psh (prun src_program pc sched)) (ash (arun fuel ac sched)) /\
+  pall_done pc (prun src_program pc sched) = aall_done ac (arun fuel ac sched).
+Proof. exact adaptive_source_any_entry. Qed.
+Print Assumptions c12_adaptive_source_program_any_entry.
+
+Theorem c12_adaptive_processor : forall (N : nat) (ac : aconfig) (fuel : nat) (d : dump) (sched : list task),
+  N < fuel -> Forall (fun sg => ends N (outc (abase ac)) sg [] = true) (astrats ac) ->
+  walk_ok d -> cfg (proc_pc src_walker d (abase ac)) = fixed_config N ac ->
+  sh_eq true (psh (prun src_program (proc_pc src_walker d (abase ac)) sched)) (ash (arun fuel ac sched)) /\
+  pall_done (proc_pc src_walker d (abase ac)) (prun src_program (proc_pc src_walker d (abase ac)) sched) =
+    aall_done ac (arun fuel ac sched).
+Proof. exact adaptive_processor. Qed.
+Print Assumptions c12_adaptive_processor.
+
+Example c12_nonvacuous_adaptive_processor :
+  Forall (fun sg => ends 4 (outc (abase ex_ac2)) sg [] = true) (astrats ex_ac2) /\ walk_ok ex_dump2 /\
+  cfg (proc_pc src_walker ex_dump2 (abase ex_ac2)) = fixed_config 4 ex_ac2.
+Proof. exact ex_adaptive_processor. Qed.
+
+(* completeness of the stats map at instruction granularity, any mix of symbol and file lookups (C12/ProgStatsMix.v): a
+   module slot that holds a remembered answer has an entry under the module's leaf name — the insert precedes the store and
+   entries are never removed; file slots have none *)
+From RM Require Import C12.ProgStatsMix.
+Theorem c12_source_instr_stats_complete : forall (sk : key -> bool) (pc : pconfig) (ms : list task) (k : key),
+  classified sk pc -> sk k = true ->
+  value (psh (pmrun src_program pc ms)) k <> None -> stats (psh (pmrun src_program pc ms)) (leaf (pbase pc) k) <> None.
+Proof. exact src_pm_stats_complete. Qed.
+Print Assumptions c12_source_instr_stats_complete.
